@@ -23,21 +23,21 @@ def P(units, text, note, **kw):
 
 
 PROPS = {
-    "C01": P(["lifecycle", "handle"],
+    "C01": P(["lifecycle", "handle", "provider"],
              "Proof (Verus, unbounded) on payment_lifecycle/resolve as extracted from src/htlc_manager.rs: every Resolve answer carries a key that is the preimage of a completed outgoing part of this hash or of its durable Succeeded record (hence preimage_of(hash)); the pay request carries the invoice and hash of this lifecycle.",
              LIFE_NOTE, assumptions=A_WORLD,
              not_covered=["CLN's own verification of the key", "SHA-256 itself (preimage_of is uninterpreted)"]),
-    "C02": P(["lifecycle", "store"],
+    "C02": P(["lifecycle", "store", "provider"],
              "Proof (Verus, unbounded): at each of the ten resolve(..) call sites of payment_lifecycle a Fail answer requires !live(w) && !pay_running in the ghost world, starting from ANY world that satisfies only the durable invariant (every restart image), under the rely (every interleaving). Known finding F-C02-a (read error of the stored state) is reported per call site.",
              LIFE_NOTE, assumptions=A_WORLD,
              not_covered=["that CLN's pay is not still running after a plugin-only restart (not observable through the RPCs used)"]),
-    "C03": P(["lifecycle", "fee", "paystate"],
+    "C03": P(["lifecycle", "fee", "paystate", "provider"],
              "Proof (Verus): the single pay call site requires fee_rhs(policy, amount) <= held total, max_fee <= held total (as read at initiation) - amount, the amount rule, the invoice of this hash, and that the counted HTLCs are still unanswered.",
              LIFE_NOTE, assumptions=A_WORLD + ["sum of simultaneously held HTLC amounts < 2^64 msat"]),
-    "C04": P(["lifecycle", "handle"],
+    "C04": P(["lifecycle", "handle", "provider"],
              "Proof (Verus): at the pay call site max_cltv_delta <= max(0, min expiry of the HTLCs held at initiation - height returned by current_height() - cltv_delta) and <= policy delta; the arithmetic of src/htlc_manager.rs:576-583 is verified in place.",
              LIFE_NOTE, assumptions=A_WORLD),
-    "C05": P(["lifecycle", "store"],
+    "C05": P(["lifecycle", "store", "provider"],
              "Proof (Verus): pay requires !live(w) && !pay_running; a Succeeded record is never followed by add_payment_attempt/pay; add_payment_attempt never overwrites a Succeeded record; the Free write of mark_failed is generation guarded (Released-phase rely).",
              LIFE_NOTE, assumptions=A_WORLD),
     "C06": P(["lifecycle", "fee", "paystate", "tlv_dec"],
@@ -48,7 +48,7 @@ PROPS = {
              "Proof (Verus, unbounded loop invariant): PaymentState::resolve gives every held listener exactly the one response and records it for late HTLCs; add_htlc never signals readiness once failure was requested; fail() is first-wins and only carries Fail; lifecycle resolves exactly once.",
              LIFE_NOTE + " oneshot::Sender::send is linear, so the prophecy `fate` is sound.", assumptions=A_WORLD,
              not_covered=["a rejecting HTLC arriving after readiness was signalled is by design ignored (statement says still-incomplete set)"]),
-    "C08": P(["lifecycle", "store"],
+    "C08": P(["lifecycle", "store", "provider"],
              "Proof (Verus): durable invariant inv(w) (live or pay running => record Pending|Succeeded; Succeeded holds preimage_of(hash)) is preserved by every atomic step of payment_lifecycle: pay requires a durable Pending; mark_failed requires (generation still matches => nothing live); mark_succeeded requires the preimage of a completed part; rely steps preserve inv (lemma_rely_preserves_inv). Every prefix of every execution therefore satisfies inv.",
              LIFE_NOTE, assumptions=A_WORLD, not_covered=["durability of CLN's datastore itself"]),
     "C09": P(["lifecycle", "store"],
@@ -75,6 +75,11 @@ PROPS["C10"] = P(["handle"],
 PROPS["C13"] = P(["handle"],
     "Proof (Verus): the classification prefix of handle_htlc returns Continue (payload None, or the input records minus the first type-16 record, byte for byte and in order) or the self-hint Fail, with the ghost world unchanged (no RPC, no table access) on every path; check_htlc/default_response verbatim.",
     HANDLE_NOTE, assumptions=["get/remove/to_bytes contracts (first record of a type; concatenation of record encodings)"])
+
+PROPS["C16"] = P(["provider"],
+    "Proof (Verus): PayPaymentProvider::pay verbatim against the node model of env/cln_pay.rs (COMPLETE => preimage of a completed part; FAILED without partial-completion warning => nothing live; PENDING / FAILED+warning / RPC error => nothing known) and wait_payment's contract: Ok(p) only with the preimage of a completed part; Err only when nothing is pending or complete -- except at the three exits of known finding F-C16-a. The PayRequest handed to the node carries maxfee/maxdelay/amount/bolt11 verbatim and no other fee knob (C03/C04).",
+    "Trusted: " + TB_COMMON + " env/cln_pay.rs (pay status semantics; a pay RPC that has returned creates no further parts); wait_payment enters under its interface contract (C15).",
+    assumptions=A_WORLD + ["a pay command that has returned (result or RPC error) creates no further parts"])
 
 PROPS["C18"] = P(["tlv_dec"],
     "Proof (Verus, unbounded loop invariant): get_compact_size, SerializedTlvStream::from_bytes and try_from(Vec<u8>) as extracted from src/tlv.rs are total (every bytes::Buf getter's remaining-length precondition is discharged: no panic on any byte string) and return exactly parse(bytes) of the BigSize/TLV spec functions in specs/tlv_spec.rs.",
